@@ -248,8 +248,10 @@ func (ff *FnFacts) paramConst(v ssa.Value) (bool, bool) {
 			}
 		}
 	}
-	if c, ok := v.(*ssa.Const); ok && c.Value != nil && types.Identical(c.Type().Underlying(), types.Typ[types.Bool]) {
-		return c.Value.String() == "true", true
+	if c, ok := v.(*ssa.Const); ok && c.Value != nil {
+		if bt, isB := c.Type().Underlying().(*types.Basic); isB && bt.Info()&types.IsBoolean != 0 {
+			return c.Value.String() == "true", true
+		}
 	}
 	if u, ok := v.(*ssa.UnOp); ok && u.Op == token.NOT {
 		if b, ok := ff.paramConst(u.X); ok {
